@@ -130,7 +130,7 @@ Definition e_fifo (v : val) : val :=
 
 (* ---------------- SMTP client ---------------- *)
 Definition dec_srv (v : val) : option srv :=
-  match v with VN 0 => Some SOk | VN 1 => Some SRej | VN 2 => Some SDrop | _ => None end.
+  match v with VN 0 => Some SOk | VN 1 => Some SRej | VN 2 => Some SDrop | VN 3 => Some SRej4 | _ => None end.
 
 Definition dec_ms (v : val) : option mscript :=
   match v with
@@ -159,6 +159,7 @@ Definition enc_wire (w : wire) : val :=
   | WRset => VL [VN 7] | WQuit => VL [VN 8] | WClose => VL [VN 9]
   | WResult e ok => VL [VN 10; VN e; vbool ok]
   | WRequeue e => VL [VN 11; VN e]
+  | WResultRcpts e => VL [VN 12; VN e]
   end.
 
 Definition enc_act (a : cact) : val :=
